@@ -158,16 +158,23 @@ func oracleC07(f *sessionFam, w *World, res *Result) []Violation {
 		} else {
 			// revision 3: client pings, server pongs; deadline = last ping (or open) + interval + timeout
 			last := conns[0].T
+			prevLast := last
 			pendingPong := -1
 			for i := range hs {
 				h := hs[i]
 				switch h.kind {
 				case "ping-in":
-					if h.t > last+pi+pt {
+					upgradedBefore := false
+					for _, u := range hs[:i] {
+						if u.kind == "upgrade" && u.t >= last && u.t <= last+pi+pt {
+							upgradedBefore = true // the statement's exclusion: the switch cancelled that deadline
+						}
+					}
+					if h.t > last+pi+pt && !upgradedBefore {
 						l.add("v3-late-ping-not-accepted", "", fmt.Sprintf("%s [%s]: ping accepted at %v after the deadline %v", a, ctx, h.t, last+pi+pt))
 					}
 					pendingPong = i
-					last = h.t
+					prevLast, last = last, h.t
 				case "pong-out":
 					if pendingPong < 0 {
 						l.add("v3-pong-only-for-ping", "", fmt.Sprintf("%s [%s]: pong created at %v without a ping", a, ctx, h.t))
@@ -179,6 +186,15 @@ func oracleC07(f *sessionFam, w *World, res *Result) []Violation {
 			}
 			if pendingPong >= 0 && hs[pendingPong].t >= drainAt {
 				pendingPong = -1 // the run ended in the instant this ping was being processed
+			}
+			if pendingPong >= 0 && closeEv != nil && closeEv.T == hs[pendingPong].t {
+				pendingPong = -1 // the session closed in the instant this ping was being processed
+			}
+			// a ping that arrives at the very instant of the deadline: it may be accepted, the session may be closed,
+			// or (the timer had committed to its callback) both - the deadline that counts is the earlier one
+			if closeEv != nil && closeEv.S == "ping timeout" && closeEv.T == last && last == prevLast+pi+pt {
+				w.probe("v3_ping_at_exact_deadline")
+				last = prevLast
 			}
 			if pendingPong >= 0 && (closeEv == nil || closeEv.Seq > hs[pendingPong].seq+8) {
 				l.add("v3-every-ping-answered", "", fmt.Sprintf("%s [%s]: client ping at %v got no pong", a, ctx, hs[pendingPong].t))
